@@ -339,6 +339,7 @@ def run_ddsmt(workdir,
     so.close()
     se.close()
     timed_out = False
+    killed_at = None
     stopped_early = False
     sent_signal = False
     reader_seen = {}
@@ -405,6 +406,7 @@ def run_ddsmt(workdir,
             proc.wait(timeout=timeout)
     except subprocess.TimeoutExpired:
         timed_out = True
+        killed_at = time.monotonic()
         if launcher is not None:
             # ask the launcher for the stacks of all threads (witness)
             try:
@@ -458,6 +460,9 @@ def run_ddsmt(workdir,
     r.stderr = err.decode('utf-8', 'replace')
     r.wall = time.time() - t0
     r.timed_out = timed_out
+    # CLOCK_MONOTONIC at the moment the watchdog fired (the launcher stamps
+    # its events with the same clock)
+    r.watchdog_fired_at = killed_at
     r.stopped_early = stopped_early
     r.sent_signal = sent_signal
     r.lingering_group = lingering
